@@ -275,6 +275,29 @@ def body_invalid(case, rec):
     exc = rec.raises("invalid_schedule_accepted", go, detail=f"{kind} via {entry}: {bad}")
     if P.SNAPS or P.TRACE:
         rec.fail("model_ran_on_invalid_schedule", f"{kind} via {entry}: {len(P.SNAPS)} probe calls happened; error was {exc!r}")
+    # ---- a refused change of a long-lived Readout: what runs afterwards is the schedule it held before, never the refused one
+    if entry in ("times_setter", "start_setter") and not bad["both"]:
+        ro = Readout(times=list(s["times"]), start_time=s["start"], non_destructive=nd)
+        refused = False
+        try:
+            if entry == "times_setter" and kind not in ("start_eq_first", "start_gt_first"):
+                ro.times = bad["times"]
+            elif kind in ("start_eq_first", "start_gt_first"):
+                ro.start_time = bad["start"]
+            else:
+                return
+        except Exception:  # noqa: BLE001
+            refused = True
+        if not refused:
+            return  # (acceptance is reported by the part above)
+        P.reset()
+        rec.cls("invalid:run_after_refused_setter")
+        with rec.must_not_raise("run_after_refused_change_failed"):
+            pyxel.run_mode(mode=Exposure(readout=ro), detector=build_detector(simple_spec("CCD", row=2, col=2)), pipeline=build_pipeline(pipe_spec))
+        seen = [x["time"] for x in P.SNAPS if x["where"] == "first"]
+        starts = {x["start_time"] for x in P.SNAPS}
+        rec.check(seen == [float(t) for t in s["times"]] and starts <= {float(s["start"])}, "refused_schedule_in_effect",
+                  f"{kind} via {entry}: after the refused change the run stepped through {seen} from start {sorted(starts)}, the readout held {s['times']} from {s['start']}")
 
 
 # ------------------------------------------------------------------ the schedule comes from a sweep of the readout time (dask observation)
